@@ -18,6 +18,8 @@ from .sym import SBool, SList, SSet, band, bite, bnot, bor, guard_of, is_sym, li
 class Ctx:
     pc = True  # current path condition (set by the interpreter)
     raises: list = []  # (guard, exception class name, message) recorded by models
+    side: list = []  # side constraints introduced by models (distinct insertion ranks); added to every query
+    counter = [0]
 
 
 def record_raise(guard, exc_name, msg=""):
@@ -33,6 +35,9 @@ class SymGraphBase:
         self.U = list(universe)
         self.node = dict(node) if node else {v: False for v in self.U}
         self.edge = dict(edge) if edge else {}
+        # insertion order of the nodes (networkx reports an undirected edge from its earlier-inserted endpoint):
+        # symbolic, pairwise distinct ranks; copies and subgraphs keep them, new graphs get fresh ones
+        self.rank = None
         self.attr = {}  # (node, key) -> guard: the attribute's (Boolean) value
         self.attr_has = {}  # (node, key) -> guard: the node has this attribute
         self.graph = {}
@@ -48,8 +53,17 @@ class SymGraphBase:
         if v not in self.node:
             raise Unsupported(f"node {v!r} outside the universe")
 
+    def ranks(self):
+        if self.rank is None:
+            Ctx.counter[0] += 1
+            k = Ctx.counter[0]
+            self.rank = {v: z3.Int(f"ins{k}_{getattr(v, 'name', v)}_{i}") for i, v in enumerate(self.U)}
+            Ctx.side.append(z3.Distinct(*self.rank.values()) if len(self.rank) > 1 else z3.BoolVal(True))
+        return self.rank
+
     def copy(self):
         c = type(self)(self.U, self.node, self.edge)
+        c.rank = self.rank
         c.attr = dict(self.attr)
         c.attr_has = dict(self.attr_has)
         return c
@@ -140,12 +154,17 @@ class SymGraphBase:
             raise Unsupported("edges(nbunch)")
         if self.directed:
             return SSet({k: g for k, g in self.edge.items()})
-        # undirected: report each edge once, oriented by universe order
+        # undirected: networkx reports each edge once, from its earlier-inserted endpoint; the insertion order is
+        # symbolic, so both orientations are possible (guarded by the rank comparison)
         idx = {v: i for i, v in enumerate(self.U)}
+        r = self.ranks()
         out = {}
         for k, g in self.edge.items():
+            if not (is_sym(g) or g):
+                continue
             u, v = sorted(k, key=idx.get)
-            out[(u, v)] = g
+            out[(u, v)] = band(g, r[u] < r[v])
+            out[(v, u)] = band(g, r[v] < r[u])
         return SSet(out)
 
     def has_edge(self, u, v):
@@ -165,6 +184,7 @@ class SymGraphBase:
         out = type(self)(self.U)
         out.node = {v: band(self.node[v], keep.mem(v)) for v in self.U}
         out.edge = {k: band(g, *[keep.mem(x) for x in k]) for k, g in self.edge.items()}
+        out.rank = self.rank
         return out
 
 
